@@ -17,6 +17,8 @@ func checkSupport(codecs []string) bool {
 			!strings.HasPrefix(codec, "hvc1.") &&
 			!strings.HasPrefix(codec, "hev1.") &&
 			!strings.HasPrefix(codec, "mp4a.") &&
+			!strings.HasPrefix(codec, "av01.") &&
+			!strings.HasPrefix(codec, "vp09.") &&
 			codec != "opus" {
 			return false
 		}
